@@ -68,6 +68,43 @@ theorem C06_define_shapes (spec : FieldSpec) :
       (∃ vs, fieldOfSpec spec = .enum vs) :=
   fieldOfSpec_shape spec
 
+/-- Every spelling of the source's alias table resolves to its own row (no row shadows another),
+alone, as `<alias> | null` and as `NULL|<alias>`. -/
+theorem C06_alias_table_sound :
+    ∀ a p, (a, p) ∈ Snel.Gen.C06.primAliases →
+      fromSpecChars a.toList = some (primToField p) ∧
+      fromSpecChars (a ++ " | null").toList = some (.optional (primToField p)) ∧
+      fromSpecChars ("NULL|" ++ a).toList = some (.optional (primToField p)) := by
+  have h : Snel.Gen.C06.primAliases.all (fun (a, p) =>
+      fromSpecChars a.toList == some (primToField p) &&
+      fromSpecChars (a ++ " | null").toList == some (.optional (primToField p)) &&
+      fromSpecChars ("NULL|" ++ a).toList == some (.optional (primToField p))) = true := by
+    decide +kernel
+  intro a p hm
+  have := List.all_eq_true.mp h (a, p) hm
+  simp only [Bool.and_eq_true, beq_iff_eq] at this
+  exact ⟨this.1.1, this.1.2, this.2⟩
+
+/-- Alias lookup ignores ASCII letter case. -/
+theorem C06_alias_case_insensitive (a b : List Char) (h : eqIgnoreAsciiCase a b = true) :
+    fromPrimitiveChars a = fromPrimitiveChars b := by
+  unfold eqIgnoreAsciiCase at h
+  unfold fromPrimitiveChars
+  rw [beq_iff_eq.mp h]
+
+example : eqIgnoreAsciiCase "DateTime".toList "datetime".toList = true := by decide +kernel
+
+/-- Spellings the statement does not mention, as the code resolves them: the first non-null
+member of a union wins, anything unresolvable silently becomes `String`. -/
+theorem C06_spec_fallbacks :
+    fieldOfSpec (.prim "int | string") = .i64 ∧
+    fieldOfSpec (.prim "string | int | null") = .optional .string ∧
+    fieldOfSpec (.prim "null | null") = .string ∧
+    fieldOfSpec (.prim "|int") = .string ∧
+    fieldOfSpec (.prim "int|") = .i64 ∧
+    fieldOfSpec (.prim "null") = .string ∧
+    fieldOfSpec (.prim "integer64") = .string := by decide +kernel
+
 /-- Acceptance does not depend on the order in which the schema's `HashMap` is iterated. -/
 theorem C06_accept_order_irrelevant (lib : TimeLib) (s₁ s₂ : Schema) (payload : Json)
     (hperm : s₁.Perm s₂) (h : SchemaNoDeepTime s₁) :
@@ -232,6 +269,18 @@ theorem C06_accept_queryable (lib : TimeLib) (st : St) (et ctx : String) (p : Js
   · simp [query]
   · simp [query, List.filter_append]
 
+/-- Value-level face of finding `time-int-above-u64`: a float in a time field is never rejected;
+`1.8446744073709552e19` (what the JSON layer makes of the integer literal 2^64) is stored as
+`i64::MAX` seconds. -/
+theorem C06_float_time_clamped (lib : TimeLib) :
+    (∀ b, okB (normalizeJsonValue lib (.num (.flt b))) = true) ∧
+    normalizeJsonValue lib (.num (.flt 0x43F0000000000000)) = .ok (.num (.pos 9223372036854775807)) := by
+  constructor
+  · intro b; rfl
+  · show Except.ok (Json.num (numOfI64 (floorToI64 0x43F0000000000000))) = _
+    have : numOfI64 (floorToI64 0x43F0000000000000) = .pos 9223372036854775807 := by decide +kernel
+    rw [this]
+
 /-- The memtable's own `trim().is_empty()` tests never fire on an event the handler accepted. -/
 theorem C06_memtable_check_redundant (lib : TimeLib) (st : St) (et ctx : String) (p : Json)
     (h : (store lib st et ctx p).1 = .ok ()) :
@@ -244,6 +293,35 @@ theorem C06_memtable_check_redundant (lib : TimeLib) (st : St) (et ctx : String)
   rcases he with he | rfl
   · exact absurd he hne
   · simp [memtableAccepts, h1, h2]
+
+/-! ## The text layer in front of the handler (STORE grammar, `balanced_braces`) -/
+
+/-- A JSON text whose only braces are the outermost pair is taken whole by the grammar.
+PARTIAL w.r.t. "every conforming payload is accepted": braces inside string values are
+counted by the grammar too — see `C06_text_brace_fails`. -/
+theorem C06_text_brace_partial (body : List Char) (hb : ∀ c ∈ body, c ≠ '{' ∧ c ≠ '}') :
+    jsonBlockAccepts ('{' :: body ++ ['}']) = true := by
+  unfold jsonBlockAccepts
+  have hd : List.dropWhile isPegSpace ('{' :: body ++ ['}']) = '{' :: body ++ ['}'] := by
+    simp [isPegSpace]
+  rw [hd]
+  have : pegBalanced (2 * ('{' :: body ++ ['}']).length + 4) ('{' :: body ++ ['}']) = some [] := by
+    have hlen : 2 * ('{' :: body ++ ['}']).length + 4 = (2 * body.length + 7) + 1 := by
+      simp; omega
+    rw [hlen]
+    show pegBody (2 * body.length + 7) (body ++ '}' :: []) = some []
+    exact pegBody_plain body [] hb _ (by omega)
+  rw [this]
+  rfl
+
+example : jsonBlockAccepts "{\"k\":1,\"s\":\"plain\"}".toList = true := by decide +kernel
+
+/-- The payload `{"s":"a}b"}` (a string field holding `a}b`) is not taken by the grammar, nor is
+`{"s":"a{b"}`: the STORE is answered with a parse error although the payload conforms.
+Reproduced on the real parser by the `peg` and `session` streams (class `brace-in-string`). -/
+theorem C06_text_brace_fails :
+    jsonBlockAccepts "{\"s\":\"a}b\"}".toList = false ∧
+    jsonBlockAccepts "{\"s\":\"a{b\"}".toList = false := by decide +kernel
 
 /-! ## DEFINE -/
 
